@@ -19,6 +19,7 @@ import slimta.redisstorage as redismod
 import slimta.cloudstorage as cloudmod
 
 ASSUMPTIONS = [
+    'DictStorage is run over plain dicts and (dict-shelve) over copy-on-access mappings: a pickling MutableMapping, and real shelve files closed and re-opened by a fresh DictStorage after every operation',
     'every write() is handed a fresh Envelope object that the caller does not mutate afterwards (DictStorage stores and returns that very object)',
     'updates and removes address live messages; the indexes of a marking round are distinct and inside the recipient list get() currently returns (what Queue._handle_partial_relay computes); get may address any id',
     'uuid4 is steered: the id-allocation loops draw from scripted candidates (collisions with live and removed ids included); mkstemp names are scripted',
@@ -27,7 +28,7 @@ ASSUMPTIONS = [
     'timestamps are integers (float(timestamp) of redis compares equal)',
 ]
 
-BACKENDS = ['dict', 'disk', 'redis', 'cloud']
+BACKENDS = ['dict', 'dict-shelve', 'disk', 'redis', 'cloud']
 
 
 # ------------------------------------------------------------ reference store
@@ -197,6 +198,19 @@ class Adapter(object):
         if name == 'dict':
             self._patch(dictmod, 'uuid', self.hub)
             self.st = dictmod.DictStorage()
+        elif name == 'dict-shelve':
+            # DictStorage over mappings that hand out copies: PickleMap, or real shelve files
+            self._patch(dictmod, 'uuid', self.hub)
+            self.shelf_dir = None
+            if self.cfg.get('files'):
+                import tempfile, shutil
+                self.shelf_dir = tempfile.mkdtemp(prefix='vp-shelve-', dir='/tmp')
+                self.stack.callback(shutil.rmtree, self.shelf_dir, True)
+                self.shelves = None
+                self.stack.callback(self._close_shelves)
+                self._open_shelves()
+            else:
+                self.st = dictmod.DictStorage(sf.PickleMap(), sf.PickleMap())
         elif name == 'redis':
             self._patch(redismod, 'uuid', self.hub)
             self.clock = Clock()
@@ -220,10 +234,31 @@ class Adapter(object):
         self.stack.callback(setattr, mod, name, old)
         setattr(mod, name, val)
 
+    def _open_shelves(self):
+        import shelve, os
+        self.shelves = [shelve.open(os.path.join(self.shelf_dir, n)) for n in ('env', 'meta')]
+        self.st = dictmod.DictStorage(self.shelves[0], self.shelves[1])
+
+    def _close_shelves(self):
+        for sh in self.shelves or ():
+            sh.close()
+        self.shelves = None
+
+    def reopen(self):
+        """persistence: close the shelve files and start a fresh DictStorage on them"""
+        if self.name == 'dict-shelve' and self.cfg.get('files'):
+            self._close_shelves()
+            self._open_shelves()
+
     def close(self):
         self.stack.close()
 
     def do(self, o, form='set'):
+        r = self._do(o, form)
+        self.reopen()
+        return r
+
+    def _do(self, o, form='set'):
         k = o[0]
         st = self.st
         try:
@@ -276,7 +311,7 @@ class Adapter(object):
 
 
 def model_name(b):
-    return 'c15_' + b
+    return 'c15_dictcopy' if b == 'dict-shelve' else 'c15_' + b
 
 
 def model_input(b, ops, ids, cfg):
@@ -559,7 +594,8 @@ def stream_random(ctx, n, nops):
         assert wf
         seqs.append((ops, forms, ids))
     cfgs = {'cloud': [dict(mq=True, fails=(False, True, False)), dict(mq=False, aws_like=False)],
-            'disk': [dict(codec=True, chunk=7), dict(codec=False)]}
+            'disk': [dict(codec=True, chunk=7), dict(codec=False)],
+            'dict-shelve': [{}, dict(files=True)]}
     run_sequences(ctx, seqs, 'random', cfgs=cfgs)
 
 
@@ -624,7 +660,7 @@ def stream_rounds(ctx, maxn):
                 ctx.evaluated(('rounds', b, form, n, assign), nontrivial=sum(1 for r in rounds if r) >= 2)
                 ctx.count('rounds:' + b)
                 if ok:
-                    mfinal = mo[0] if b == 'dict' else mo[1]
+                    mfinal = mo[0] if b.startswith('dict') else mo[1]
                     mwant = tuple(U(x) for x in mfinal[0]) if mfinal else None
                     if mwant != got[2]:
                         ctx.mismatch('rounds:' + b, dict(rcpts=names[:n], rounds=rounds), got[2], mwant)
